@@ -80,7 +80,7 @@ def discharge(obl, timeout_ms=10000, want_model=True, use_cvc5=True):
 
     if is_canary:
         # vacuity canary: only an `unsat` answer matters; a short single attempt is enough
-        s, r = run(tmo=min(timeout_ms, 1500))
+        s, r = run(tmo=min(timeout_ms, 1500 if obl.name.endswith("requires/satisfiable") else 400))
         dt = time.time() - t0
         common = dict(kind=obl.kind, props=obl.props, line=obl.line, path=obl.path, size=size, meta=obl.meta)
         if r == z3.unsat:
